@@ -1,4 +1,5 @@
 import Bifrost.Model.SigClient
+import Bifrost.Model.Signaling
 import Bifrost.Lemmas.SigClient
 /-!
 C23 — Signaling makes progress once both peers are stably attached.
@@ -71,5 +72,59 @@ theorem reopen_keeps_send (s : State) (c : SendCall) (e e' : Nat)
   simp only [SigClient.getSend_def] at hc
   by_cases hep : cep = some e' <;>
     simp [opened, hne, sendStep, hc, hid, hep, SigClient.getSend_def, SigClient.setSend_def, SigClient.findL_setL, txLoop]
+
+end Bifrost.Props.C23
+
+/-! ### Relay side: the late exit of a superseded handler
+
+A `Session` handler of the relay that was superseded by a newer stream of the same client can end
+long after its successor attached (it was blocked writing on a dead connection). Its deferred
+cleanup must then change nothing but its own bookkeeping: the session's epoch and every pending
+slot of both CURRENT attachments (`recv`, `recvSent`, `recvClear`, `outAcked`) belong to the new
+epoch; wiping them without an epoch bump loses a message or its acknowledgement with nobody left
+to re-transmit (the liveness theorem `C23Live.signaling_progress` is about the LTS whose `sEnd`
+has this property; the engines replay every `end` event of the real relay against it). -/
+namespace Bifrost.Props.C23
+open Bifrost Bifrost.Sig
+
+/-- The exit of a handler that is not the current attachment of its side (superseded, or already
+detached) is the identity on all sessions (epoch, attachments, every message slot), on the peer
+trackers, on both maps, on the fresh-identity counter and on the ghost log of accepted
+submissions: only the handler's own call record changes. -/
+theorem superseded_exit_changes_only_its_call (s : Sig.State) (call : Nat) (c : SCall) (t : Sess)
+    (hc : getSCall s call = some c) (ht : getSess s c.sess = some t)
+    (hsup : ∀ o, (t.sides c.isA).1 = some o → o.call ≠ call) :
+    (sEnd s call).sesss = s.sesss ∧ (sEnd s call).sessMap = s.sessMap ∧
+    (sEnd s call).tkrs = s.tkrs ∧ (sEnd s call).peerMap = s.peerMap ∧
+    (sEnd s call).lcalls = s.lcalls ∧ (sEnd s call).next = s.next ∧
+    (sEnd s call).accepted = s.accepted ∧
+    (sEnd s call).scalls = (setSCall s { c with ended := true, failing := true, outbox := [] }).scalls := by
+  have hg : getSess (setSCall s { c with ended := true, failing := true, outbox := [] }) c.sess = some t := by
+    simpa [getSess, setSCall] using ht
+  unfold sEnd
+  simp only [hc, hg]
+  cases ho : (t.sides c.isA).1 with
+  | none => simp [setSCall]
+  | some o => simp [hsup o ho, setSCall]
+
+/-- In particular every session tracker reads the same before and after. -/
+theorem superseded_exit_keeps_session (s : Sig.State) (call : Nat) (c : SCall) (t : Sess)
+    (hc : getSCall s call = some c) (ht : getSess s c.sess = some t)
+    (hsup : ∀ o, (t.sides c.isA).1 = some o → o.call ≠ call) (sid : Nat) :
+    getSess (sEnd s call) sid = getSess s sid := by
+  simp [getSess, (superseded_exit_changes_only_its_call s call c t hc ht hsup).1]
+
+/-- Non-vacuity (the seeded history): peer 2 attaches (call 1), peer 1 attaches (call 2), peer 2
+re-attaches on a new stream (call 3, epoch 3) while call 1 is stuck; peer 2's successor sends
+message 7 to peer 1, peer 1's handler forwards it (`recvSent = 7`); now the superseded call 1
+ends: the session still holds `recvSent = 7` for peer 1's attachment and epoch 3, so peer 1's
+acknowledgement is accepted afterwards. -/
+example :
+    let s0 := sInit (sInit (sInit {} 1 2 1) 2 1 2) 3 2 1
+    let s1 := sLoop (sSend s0 3 3 { seqno := 7, mid := 7 } true 2) 2
+    (getSess s1 2).map (fun t => (t.seqno, t.attA.map (·.recvSent), t.attB.map (·.call))) = some (3, some (some 7), some 3) ∧
+    getSess (sEnd s1 1) 2 = getSess s1 2 ∧
+    ((getSess (sAck (sEnd s1 1) 2 3 7) 2).bind (·.attB)).map (·.outAcked) = some (some 7) := by
+  decide
 
 end Bifrost.Props.C23
